@@ -476,22 +476,22 @@ type StepResult struct {
 
 // Writer executes write programs against a Conn.
 type Writer struct {
-	C        *ws.Conn
-	Cfg      Cfg
-	Sent     []Sent
-	Results  []StepResult
-	open     io.WriteCloser
-	openIdx  int // index in Sent of the message whose writer is open
-	enabled  bool
-	Base     time.Time
-	AfterOp  func(step int, call string) // hook between calls (C09/C10 use it)
-	StopOnEr bool
-	NC       *xport.Conn // when set, calls are bracketed with transport counters
-	Calls    []Call
-	CurDL    time.Time // deadline last given to SetWriteDeadline
-	pending  Call
+	C           *ws.Conn
+	Cfg         Cfg
+	Sent        []Sent
+	Results     []StepResult
+	open        io.WriteCloser
+	openIdx     int // index in Sent of the message whose writer is open
+	enabled     bool
+	Base        time.Time
+	AfterOp     func(step int, call string) // hook between calls (C09/C10 use it)
+	StopOnEr    bool
+	NC          *xport.Conn // when set, calls are bracketed with transport counters
+	Calls       []Call
+	CurDL       time.Time // deadline last given to SetWriteDeadline
+	pending     Call
 	OnCall      func(Call) // invoked right after every API call returns
-	pendingOpen bool // a NextWriter step is between its parts (the writer is open but not yet registered)
+	pendingOpen bool       // a NextWriter step is between its parts (the writer is open but not yet registered)
 }
 
 func (w *Writer) begin(step int, name string) {
